@@ -2,6 +2,7 @@ package main
 
 import (
 	"go/ast"
+	"go/token"
 	"go/types"
 )
 
@@ -55,7 +56,7 @@ func init() {
 			}
 			n++
 			empty := false
-			for _, f := range factsOf(guardsAt(info, stack)) {
+			for _, f := range flagFacts(info, fd.Body, defs, factsOf(guardsAt(info, stack)), rs.Pos()) {
 				if c.isEmptyTypeTest(info, f.E, f.True, fromField) {
 					empty = true
 				}
@@ -67,4 +68,106 @@ func init() {
 			c.OK("R02e", "GetDataType:cancelled:none", fd.Pos(), "no return of `*` inside a cancelled-context arm")
 		}
 	})
+}
+
+// flagFacts: a fact over a boolean local that is defined exactly once (`empty := dt == ""; if empty {…}`)
+// also states its defining condition. It is only unfolded where the definition is known to have run
+// earlier on the same pass with the same operands: the block holding the definition encloses the use,
+// no loop or function-literal boundary lies between that block and the use, and no local read by the
+// definition is assigned between the definition and the use.
+func flagFacts(info *types.Info, body *ast.BlockStmt, defs defMap, facts []Fact, use token.Pos) []Fact {
+	out := append([]Fact(nil), facts...)
+	for i := 0; i < len(out) && i < 64; i++ {
+		f := out[i]
+		id, ok := unparen(f.E).(*ast.Ident)
+		if !ok {
+			continue
+		}
+		v, isVar := info.ObjectOf(id).(*types.Var)
+		if !isVar || v.IsField() {
+			continue
+		}
+		if b, isBasic := v.Type().Underlying().(*types.Basic); !isBasic || b.Info()&types.IsBoolean == 0 {
+			continue
+		}
+		ds := defs[v]
+		if len(ds) != 1 || ds[0] == nil || ds[0].End() >= use {
+			continue
+		}
+		def := ds[0]
+		path := pathTo(body, def)
+		blk := -1
+		for j := len(path) - 1; j >= 0; j-- {
+			if _, isBlk := path[j].(*ast.BlockStmt); isBlk {
+				blk = j
+				break
+			}
+			if _, isCC := path[j].(*ast.CaseClause); isCC {
+				blk = j
+				break
+			}
+			if _, isCC := path[j].(*ast.CommClause); isCC {
+				blk = j
+				break
+			}
+		}
+		if blk < 0 || !(path[blk].Pos() <= use && use < path[blk].End()) {
+			continue
+		}
+		// nothing between the definition's block and the use may be a loop or a function literal
+		boundary := false
+		ast.Inspect(path[blk], func(n ast.Node) bool {
+			if n == nil || boundary || !(n.Pos() <= use && use < n.End()) {
+				return false
+			}
+			if n != path[blk] {
+				switch n.(type) {
+				case *ast.ForStmt, *ast.RangeStmt, *ast.FuncLit:
+					boundary = true
+				}
+			}
+			return true
+		})
+		if boundary {
+			continue
+		}
+		stale := false
+		ast.Inspect(def, func(n ast.Node) bool {
+			x, isId := n.(*ast.Ident)
+			if !isId {
+				return true
+			}
+			o, isV := info.ObjectOf(x).(*types.Var)
+			if !isV || o.IsField() {
+				return true
+			}
+			if _, known := defs[o]; known {
+				ast.Inspect(body, func(m ast.Node) bool {
+					switch s := m.(type) {
+					case *ast.AssignStmt:
+						for _, l := range s.Lhs {
+							if lid, isL := l.(*ast.Ident); isL && info.ObjectOf(lid) == o && s.Pos() > def.End() && s.Pos() < use {
+								stale = true
+							}
+						}
+					case *ast.IncDecStmt:
+						if lid, isL := s.X.(*ast.Ident); isL && info.ObjectOf(lid) == o && s.Pos() > def.End() && s.Pos() < use {
+							stale = true
+						}
+					case *ast.UnaryExpr:
+						if lid, isL := unparen(s.X).(*ast.Ident); isL && s.Op == token.AND && info.ObjectOf(lid) == o {
+							stale = true
+						}
+					}
+					return !stale
+				})
+			}
+			return !stale
+		})
+		if stale {
+			continue
+		}
+		out = append(out, factsOf([]Guard{{Cond: def, Neg: !f.True}})...)
+	}
+	return out
 }
